@@ -7,6 +7,7 @@ NOTE = ("Trusted base: symnp's model of the NumPy surface (symnp/proxy.py), the 
         "(rounding/overflow/NaN propagation not modelled). Claim per obligation: for all real inputs in the harness domain, on every "
         "explored path; undecided obligations are listed in the evidence and not claimed.")
 CHECKS = {
+ 'C16': "ReferenceEllipsoid is executed with symbolic (a, f, GM, w) and a symbolic latitude/height: the defining identities of b, e^2, e'^2, E, m and Pizzetti's theorem are rational identities decided by the solver with arctan(e') an inverse-trig atom whose value cancels; Somigliana's formula at the equator / poles, its latitude symmetry and the height factor are decided on the real code; the zero-flattening branch is its own path with the rotating-sphere limits as oracle.",
  'C11': "Accept side: constructors are executed on symbolic non-zero vectors / rows / angles / RNG draws and the solver decides unit norm, same direction and R R^T = I, det = 1. Reject side: a fully symbolic 3x3 matrix is pushed through DCM(M), Quaternion(dcm=M) and QuaternionArray(DCM=M[None]); on every path that does not raise ValueError the solver must show max|M M^T - I| <= 1e-4 and |det M - 1| <= 1e-4 (so everything farther from SO(3) is rejected); zero vectors and a concrete lattice of wrong shapes must raise.",
  'C06': "Differential symbolic execution with N=3 symbolic samples per filter: constructor over the history vs. a fresh instance fed sample by sample through update*(), a repeated batch run, and an unrelated instance stepping in between; the solver decides equality of every output row and of the carried state (bias / covariance), so the step is inductive. Quick: Mahony-IMU, ROLEQ, AngularRate, EKF streaming, FLAE weights; thorough adds Madgwick, the MARG variants, AQUA and EKF.",
  'C13': "One faulty step per recursive filter with the dropped sample exactly zero (acc and/or mag, and gyr) and everything else symbolic, from an arbitrary valid state; for FKF / Complementary a zero middle row in an N=3 history. The solver decides on every path that the outcome is a ValueError or a defined unit quaternion (and defined post-state); NaN-producing paths are reachability obligations replayed on the real code. The recovery clause is not claimed.",
